@@ -182,7 +182,8 @@ def main():
         for fam in spec["corr"]:
             ops = corr.family_ops(fam, tables, seed, tier, intensify)
             g, m, diffs = corr.compare(ops)
-            stats["corr"][fam] = {"ops": len(ops), "disagreements": len(diffs)}
+            n_ops = sum(len(x) for x in ops) if ops and isinstance(ops[0], list) else len(ops)
+            stats["corr"][fam] = {"ops": n_ops, "disagreements": len(diffs)}
             for oid, f, x, y in diffs[:3]:
                 corr_diffs.append((fam, f, x, y))
         if corr_diffs:
